@@ -15,6 +15,12 @@ import TinyVerif.Proofs.DlIndDvTop
 -/
 namespace TinyVerif.Dl
 
+/-- `omega` after removing the propositional debris `simp only [… decide_eq_true_eq]` leaves behind -/
+macro "sg_omega" : tactic =>
+  `(tactic| ((try simp only [true_and, and_true, Bool.not_false, Bool.not_true, Bool.true_eq_false, Bool.false_eq_true,
+      false_and, and_false, or_false, false_or, true_or, or_true, ne_eq, not_false_eq_true, not_true_eq_false]) <;>
+    first | done | omega))
+
 /-! ## 1. `isRecord`, `FenceOk`, `User` -/
 
 theorem sg_isRecord_iff {segs : List Seg} {e : Ent} :
